@@ -9,7 +9,7 @@ META = {
     "category": "proof",
     "text": "Kernel-checked theorems: the Lean model of ops::slice (with every checked arithmetic operation modelled as a possible panic) returns exactly CPython's selection for every list shorter than 2^63 and every start/stop/step in i64, a zero step is the only error, no panic; subscripts likewise. The model is tied to /repo by running model, CPython-transcription and the real engine on the whole box of the property's quantifier (exhaustive), plus CPython itself as an independent witness for the spec.",
     "design_ref": "DESIGN.md §3 C09",
-    "level_note": "Trusted: Lean kernel; hand transcription of ops.rs slice/get_offset_and_len/range_step_backwards and get_item_opt::index into MJ/Model/Slice.lean, validated exhaustively on the box (10 kinds x len 0..6 x 23 starts x 23 stops x 13 steps); i64 conversion of bounds and the str/bytes/tuple/list kind dispatch are covered by the correspondence only.",
+    "level_note": "Trusted: Lean kernel; hand transcription of ops.rs slice/slice_bound/get_offset_and_len/range_step_backwards, value/mod.rs get_item_opt(+index)/get_item/get_item_by_index/get_attr and the VM arms GetItem/GetAttr/Slice into MJ/Model/{Slice,Subscript}.lean; every dispatch table, conversion arm list, error kind/message, length function and the handle_undefined table the model interprets is regenerated from /repo (lib/tables/c09.py) with shape checks. Validated exhaustively on the box (10 kinds x len 0..6 x 23 starts x 23 stops x 13 steps) and on the value-kind x key-kind product through 12 entry points x 4 undefined modes; long random sequences (len <= 2000, bounds near +-len, +-2^31, +-2^63, +-2^64, +-2^127) against the model and CPython.",
 }
 
 KIND_CLASS = {"strplain": "str", "strsmall": "str", "strsafe": "str", "bytes": "bytes", "tuple": "tuple"}
@@ -62,6 +62,269 @@ def py_expect(f):
             return "undef"
 
 
+# ------------------------------------------------------------------------------------------
+# glue streams: Python as the oracle wherever Python defines a result
+def _fnv(cls, xs):
+    h = 0xcbf29ce484222325
+    for x in xs:
+        h = ((h ^ x) * 0x100000001b3) & 0xFFFFFFFFFFFFFFFF
+    return "%s#%d#%d#%s" % (cls, len(xs), h, ",".join(str(x) for x in xs[:6]))
+
+
+def _long_chr(i):
+    q = i // 4
+    return chr([0x61 + q % 26, 0xe0 + q % 32, 0x4e00 + q % 1000, 0x1f600 + q % 64][i % 4])
+
+
+def _long_obj(kind, n):
+    if kind.startswith("str"):
+        return "".join(_long_chr(i) for i in range(n))
+    if kind == "bytes":
+        return bytes((i * 7 + 3) % 256 for i in range(n))
+    if kind == "tuple":
+        return tuple(range(n))
+    return list(range(n))
+
+
+def _long_class(kind):
+    return "str" if kind.startswith("str") else kind if kind in ("bytes", "tuple") else "list"
+
+
+def _elems(obj):
+    return [ord(c) for c in obj] if isinstance(obj, str) else list(obj)
+
+
+def _ib(s):
+    return None if s == "_" else int(s)
+
+
+ZERO_STEP = "err:InvalidOperation|cannot slice by step size of 0"
+
+
+def py_long(f):
+    kind, n, a, b, c = f[1], int(f[2]), f[3], f[4], f[5]
+    obj = _long_obj(kind, n)
+    if c.startswith("i"):
+        try:
+            x = obj[int(c[1:])]
+        except IndexError:
+            return "undef"
+        return ("chr:%d" % ord(x)) if isinstance(obj, str) else "elem:%d" % x
+    if _ib(c) == 0:
+        return ZERO_STEP
+    return _fnv(_long_class(kind), _elems(obj[slice(_ib(a), _ib(b), _ib(c))]))
+
+
+def _strip_class(d):
+    return d.split("#", 1)[1] if "#" in d else d
+
+
+def _unsized_result(kind, a, b, c):
+    """does the engine's lazy result of slicing an iterable of unknown length lack a length?"""
+    if kind != "iterunsized":
+        return False
+    a, b, c = _ib(a), _ib(b), _ib(c)
+    if (c if c is not None else 1) <= 0 or (a is not None and a < 0) or (b is not None and b < 0):
+        return False
+    return not (b is not None and b <= (a or 0))   # take(0) knows its length
+
+
+def py_meta(f, impl):
+    """returns None if the relation holds, else a description"""
+    rel, kind, n, a, b, c = f[1], f[2], int(f[3]), f[4], f[5], f[6]
+    obj = _long_obj(kind, n)
+    cls = _long_class(kind)
+    if rel == "rev":
+        lhs, rhs = impl.split("~~")
+        want = _strip_class(_fnv(cls, _elems(obj[::-1])))
+        if _strip_class(lhs) != want or _strip_class(rhs) != want:
+            return "reverse filter / [::-1] / Python disagree: want " + want
+        return None
+    if rel in ("first", "last"):
+        lhs, rhs = impl.split("~~")
+        if n == 0:
+            want = "undef"
+        else:
+            x = obj[0] if rel == "first" else obj[-1]
+            want = _strip_class(_fnv("str", [ord(x)])) if isinstance(obj, str) else "elem:%d" % x
+        if _strip_class(lhs) != want or _strip_class(rhs) != want:
+            return "%s filter / subscript / Python disagree: want %s" % (rel, want)
+        return None
+    if rel == "len":
+        if _ib(c) == 0:
+            return None if impl == ZERO_STEP else "zero step must be the slice error"
+        if _unsized_result(kind, a, b, c):
+            return None if impl.startswith("err:InvalidOperation|cannot calculate length") else "length of a lazy result of unknown size"
+        want = str(len(obj[slice(_ib(a), _ib(b), _ib(c))]))
+        return None if impl == want else "length of the slice: Python says " + want
+    if rel == "loop":
+        if _ib(c) == 0:
+            return None if impl == ZERO_STEP else "zero step must be the slice error"
+        sel = obj[slice(_ib(a), _ib(b), _ib(c))]
+        # a for loop over a string walks `chars()`, whose length is not known up front: no loop.length
+        ln = "" if _unsized_result(kind, a, b, c) or isinstance(obj, str) else str(len(sel))
+        show = (lambda x: x) if isinstance(obj, str) else (lambda x: str(x))
+        if kind == "bytes":
+            show = lambda x: str(x)
+        want = "".join("%s:%d:%s," % (ln, i, show(x)) for i, x in enumerate(sel))
+        return None if impl == want else "loop over the slice: Python says " + want[:80]
+    if rel == "sss":
+        if _ib(c) == 0:
+            return None if impl == ZERO_STEP else "zero step must be the slice error"
+        c2 = 1 if c in ("_", "0") else int(c)
+        sel = obj[slice(_ib(a), _ib(b), _ib(c))][slice(_ib(b), _ib(a))][::c2]
+        want = _fnv(cls, _elems(sel))
+        return None if impl == want else "slice of slice of slice: Python says " + want
+    if rel == "litv":
+        if _ib(c) == 0:
+            return None if impl == ZERO_STEP + "~~" + ZERO_STEP else "zero step must be the slice error"
+        lhs, rhs = impl.split("~~")
+        want = _fnv(cls, _elems(obj[slice(_ib(a), _ib(b), _ib(c))]))
+        return None if lhs == want and rhs == want else "literal vs run-time container: Python says " + want
+    if rel == "liti":
+        lhs, rhs = impl.split("~~")
+        try:
+            x = obj[int(a)]
+            want = ("chr:%d" % ord(x)) if isinstance(obj, str) else "elem:%d" % x
+        except IndexError:
+            want = "undef"
+        return None if lhs == want and rhs == want else "literal vs run-time subscript: Python says " + want
+    return "unknown relation"
+
+
+def _spec_py(spec):
+    """Python object for a value spec, or None if Python has no such sequence"""
+    tag, _, arg = spec.partition(":")
+    if tag in ("sn", "sm", "sa"):
+        return bytes.fromhex(arg).decode("utf-8"), "str"
+    if tag == "b":
+        return bytes.fromhex(arg), "bytes"
+    if tag == "P":
+        return tuple(range(int(arg))), "tuple"
+    if tag in ("L", "D", "CS", "E", "R", "CI", "X", "O"):
+        return list(range(int(arg))), "iter"
+    return None
+
+
+def _spec_int(spec, omitted_ok):
+    """the Python integer a bound/key spec stands for: ints of every repr and bools; (ok, value)"""
+    tag, _, arg = spec.partition(":")
+    if spec in ("_", "Z") and omitted_ok:
+        return True, None
+    if tag in ("i", "u", "I", "W"):
+        return True, int(arg)
+    if spec == "T":
+        return True, 1
+    if spec == "F":
+        return True, 0
+    return False, None
+
+
+def py_gs(f):
+    """expected canonical result where Python defines one (classes without the sizedness flag)"""
+    vs, a, b, c = f[3], f[4], f[5], f[6]
+    o = _spec_py(vs)
+    ia, ib, ic = _spec_int(a, True), _spec_int(b, True), _spec_int(c, True)
+    if o is None or not (ia[0] and ib[0] and ic[0]):
+        return None
+    if f[1] == "X" and False:
+        return None
+    obj, cls = o
+    if ic[1] == 0:
+        return ZERO_STEP
+    sel = obj[slice(ia[1], ib[1], ic[1])]
+    if cls == "str":
+        return "str:" + sel.encode("utf-8").hex()
+    if cls == "bytes":
+        return "bytes:" + sel.hex()
+    return cls + ":" + ",".join(map(str, sel))
+
+
+def py_gi(f):
+    vs, k = f[3], f[4]
+    o = _spec_py(vs)
+    ik = _spec_int(k, False)
+    if o is None or not ik[0]:
+        return None
+    obj, cls = o
+    if vs.startswith("O:") and ik[1] < 0:
+        return None     # Python's generators are not subscriptable; engine rule: undefined
+    try:
+        x = obj[ik[1]]
+    except IndexError:
+        return "undef"
+    if cls == "str":
+        return "chr:" + x.encode("utf-8").hex()
+    if cls == "bytes":
+        return "byte:%d" % x
+    return "elem:%d" % x
+
+
+def _kindtag(spec):
+    return spec.partition(":")[0]
+
+
+def glue_case(r, f, case, impl, mline):
+    st = f[0]
+    r.hist["stream"][st] += 1
+    m = None
+    if mline is not None:
+        parts = mline.split("\t")
+        m = parts[1] if len(parts) > 1 else None
+    if impl == "panic":
+        r.oracle_failure(case, "the engine panicked", "panic")
+    if st == "meta":
+        r.hist["meta_relation"][f[1]] += 1
+        r.hist["kind"][f[2]] += 1
+        r.count(case, f[3] != "0")
+        bad = py_meta(f, impl)
+        if bad:
+            r.oracle_failure(case, f"engine returned {impl[:120]}; {bad}", "meta:" + f[1] + ":" + f[2])
+        return
+    if m is not None and impl != m:
+        r.model_disagreement(case, impl, m)
+    if st == "long":
+        r.hist["kind"][f[1]] += 1
+        r.hist["long_len_bucket"]["<50" if int(f[2]) < 50 else "<300" if int(f[2]) < 300 else "<=2000"] += 1
+        for b in f[3:6]:
+            v = None if b == "_" else int(b.lstrip("i"))
+            r.hist["long_bound_magnitude"]["omitted" if v is None else "<=2^12" if abs(v) <= 4096 else "~2^31" if abs(v) < 2**40
+                                           else "~2^63" if abs(v) < 2**63 + 8 else ">=2^64"] += 1
+        r.count(case, int(f[2]) > 0)
+        want = py_long(f)
+        if impl != want:
+            r.oracle_failure(case, f"engine returned {impl}, Python selects {want}", "long:" + f[1] + (":index" if f[5].startswith("i") else ":backward" if f[5].startswith("-") else ":forward"))
+        return
+    r.hist["mode"][f[1]] += 1
+    r.hist["entry"][st + ":" + f[2]] += 1
+    r.hist["value_kind"][_kindtag(f[3])] += 1
+    for b in f[4:]:
+        r.hist["key_kind"][_kindtag(b) if st != "ga" else "name"] += 1
+    r.hist["result"][impl.split(":")[0].split("|")[0]] += 1
+    r.count(case, not impl.startswith("err") and impl not in ("undef",))
+    if st == "gs":
+        want = py_gs(f)
+        if want is None:
+            r.hist["oracle"]["engine-rule (model only)"] += 1
+            return
+        if f[3] in ("U", "Z"):
+            return
+        r.hist["oracle"]["python"] += 1
+        got = impl.replace("iterS:", "iter:").replace("iterU:", "iter:")
+        if got != want:
+            r.oracle_failure(case, f"engine returned {impl}, Python selects {want}", "gs:" + _kindtag(f[3]) + ":" + f[2])
+    elif st == "gi":
+        want = py_gi(f)
+        if want is None:
+            r.hist["oracle"]["engine-rule (model only)"] += 1
+            return
+        r.hist["oracle"]["python"] += 1
+        if impl != want:
+            r.oracle_failure(case, f"engine returned {impl}, Python selects {want}", "gi:" + _kindtag(f[3]) + ":" + f[2])
+    else:
+        r.hist["oracle"]["engine-rule (model only)"] += 1
+
+
 def run(r):
     r.rule = ("exhaustive enumeration of (kind, len 0..6, start, stop in {omitted} U [-9,9] U {i64 boundaries}, step in "
               "{omitted} U [-4,4] U {i64 boundaries}) as context variables (+ literal forms); a case is non-trivial when "
@@ -69,7 +332,12 @@ def run(r):
     r.assumptions = ["sequences longer than 6 behave like the model predicts (proved for the model for every length)",
                      "bounds outside i64 are rejected by i64::try_from before slicing",
                      "one-shot iterators are subscripted with non-negative indexes only (an end-relative subscript has to count, i.e. consume, the iterator first; Python's generators are not subscriptable at all)"]
-    r.regen_tables()
+    r.assumptions[0] = ("sequences longer than the box behave like the model predicts: proved for the model for every length; "
+                        "sampled on the engine up to length 2000 (long stream) against model and CPython")
+    r.assumptions[1] = ("bounds that are not integers (floats, strings, undefined, ...) follow the engine's conversion rule "
+                        "(integral floats act as integers, the rest is an InvalidOperation error) - Python raises TypeError for all of them")
+    r.assumptions.append("map keys in the tie are booleans, integers in i64 and strings (the Ord/Eq of arbitrary Values is C07's)")
+    r.regen_tables(["C09_SLICE_DISPATCH", "C09_SLICE_PRELUDE", "C09_INT_CONVERSION", "C09_GET_ITEM", "C09_VM_SUBSCRIPT", "C09_KINDS"])
     r.lean_prove("MJ.Props.C09", "MJ/Audit/C09.lean", extra_targets=["drive_c09"])
     exe = r.cargo_build("c09")
     if exe is None:
@@ -88,6 +356,9 @@ def run(r):
     for i, line in enumerate(lines):
         case, impl = line.split("\t")
         f = case.split()
+        if f[0] in ("gs", "gi", "ga", "long", "meta"):
+            glue_case(r, f, case, impl, model[i] if model is not None else None)
+            continue
         nontrivial = f[1] not in ("undef", "none") and f[2] != "0" and not (f[0] == "chain" and impl in ("undef", "list:", "str:", "tuple:", "bytes:"))
         r.count(case, nontrivial)
         r.hist["stream"][f[0]] += 1
@@ -120,5 +391,12 @@ def replay(r, path):
         model = r.driver("drive_c09", out)
         print("engine:", out.strip())
         print("model/spec:", model[0] if model else None)
-        print("python:", py_expect(case.split()))
+        f = case.split()
+        if f[0] in ("gs", "gi", "ga", "long", "meta"):
+            want = {"gs": py_gs, "gi": py_gi, "long": py_long}.get(f[0], lambda f: None)(f)
+            print("python:", want if want is not None else "(no Python semantics: engine rule, see model)")
+            if f[0] == "meta" and out.strip():
+                print("relation:", py_meta(f, out.strip().split("\t")[1]) or "holds")
+        else:
+            print("python:", py_expect(f))
     return 0
